@@ -112,6 +112,15 @@ HARNESSES.append(
          backends=["default", "kissat"],
          bound="2 groups of 8 blocks (the last 1..8 long), first data block 0/1, every bit of both bitmaps, every descriptor byte, "
                "superblock count, ro_compat and fs->flags symbolic; e2fsck -n"))
+HARNESSES.append(
+    dict(name="p5inodes", src="p5inodes.c", extra_src=["lib/ext2fs/blknum.c"],
+         funcs=["check_inode_bitmaps", "print_bitmap_problem", "ext2fs_bg_free_inodes_count", "ext2fs_bg_used_dirs_count", "ext2fs_bg_flags_test"],
+         configs=[{"ANSWER": 0, "NG": 2, "DSZ": 32, "CSUM": 0}, {"ANSWER": 0, "NG": 2, "DSZ": 32, "CSUM": 1}],
+         cbmc_flags=["--object-bits", "10"],
+         unwind=4, unwindset=P5_UW + ["check_inode_bitmaps.0:18", "check_inode_bitmaps.1:1", "check_inode_bitmaps.2:4"],
+         backends=["default", "kissat"],
+         bound="2 groups of 8 inodes, every bit of inode_used_map / inode_dir_map / fs->inode_map, every descriptor byte, "
+               "s_free_inodes_count and fs->flags symbolic; with and without group-descriptor checksums (INODE_UNINIT honoured); e2fsck -n"))
 MANIFEST = {
     "text": "Kernel-level slice (partial). Detector completeness against an independent format predicate, bounded-exhaustive: every extent header "
             "violating (magic, entries <= max, max entries fit the node) is rejected by ext2fs_extent_header_verify for every node size; every "
